@@ -226,6 +226,18 @@ func runFixtures(c *core.Ctx, engines ...string) {
 				}
 				c.FixtureResult("dirnamed:"+tc.name, tc.want, len(dirNamedSites(fp, []*ssa.Function{f})) == 1)
 			}
+		case "fold":
+			for _, tc := range []struct {
+				name string
+				want bool
+			}{{"BadFold", true}, {"GoodFold", false}} {
+				f := fn(tc.name)
+				if f == nil {
+					c.Hard("fixture function %s missing", tc.name)
+					continue
+				}
+				c.FixtureResult("fold:"+tc.name, tc.want, len(foldThenCut([]*ssa.Function{f})) == 1)
+			}
 		case "paging":
 			for _, tn := range []string{"GoodDir", "BadDir"} {
 				n := fp.Named("", tn)
